@@ -170,8 +170,8 @@ def invoke_ctrl(ip, repo, fref, ctx):
                 m.set(t + shift, o)
             tctl[side] = m
             ctimes[side] = Seq.from_list([t + shift for t in ts], 'ndarray') if ts else Seq(0, lambda i: z3.RealVal(0), 'ndarray')
-        o = mkobj(repo, 'control.Control', _dimension=base.fields['_dimension'],
-                  _step_controls=base.fields['_step_controls'], _time_controls=tctl, _control_times=ctimes)
+        o = mkobj_init(ip, repo, 'control.Control', [base.fields['_dimension']],
+                       _step_controls=base.fields['_step_controls'], _time_controls=tctl, _control_times=ctimes)
         outs.append(ip.call(fref, [o, ctx['step']], {'dt': ctx['dt'], 'start_time': ctx['t0'] + shift}))
     return outs
 
